@@ -11,6 +11,9 @@ STEPS = {
     "%17": lambda e: B("%", e, I(17)), "/2": lambda e: B("/", e, I(2)), "XOR5": lambda e: B("XOR", e, I(5)),
     "<<1": lambda e: B("<<", e, I(1)), "+h": lambda e: B("+", e, V("d")),
     "inc%5": lambda e: B("%", B("+", e, I(1)), I(5)),
+    # held inputs of the CELL's own signal type: straight from the input, and computed by a combinator
+    "+hm": lambda e: B("+", e, V("hm")),
+    "+hk": lambda e: B("+", e, V("hk")),
 }
 NSTEPS = {k: (2 if k == "inc%5" else 1) for k in STEPS}
 CELL = "signal-M"
@@ -43,7 +46,9 @@ def mk(chain, form, readers, optimize):
     if "bare" in readers:
         body.append(("decl", "Signal", "o0", ("read", "m")))
         rd["o0"] = "anchor"
-    inputs = ["d"] if "+h" in chain else []
+    inputs = (["d"] if "+h" in chain else []) + (["hm"] if ("+hm" in chain or "+hk" in chain) else [])
+    if "+hk" in chain:
+        body.insert(0, ("decl", "Signal", "hk", B("*", V("hm"), I(2))))
     return {"chain": list(chain), "form": form, "readers": rd, "stmts": gen.prog_with_inputs(inputs, body),
             "inputs": inputs, "fexpr": fexpr, "nsteps": sum(NSTEPS[s] for s in chain),
             "opts": {"optimize": optimize}}
@@ -64,11 +69,11 @@ class C04(core.Check):
     def cases(self, tier):
         names = list(STEPS)
         chains = [(a,) for a in names] + [(a, b) for a in names for b in names]
-        three = [("+1", "*3", "%17"), ("+h", "*3", "%17"), ("+1", "XOR5", "%17"), ("*3", "+1", "/2"),
+        three = [("+1", "*3", "%17"), ("+h", "*3", "%17"), ("+hk", "*3", "%17"), ("+hm", "*3", "%17"), ("+1", "+hk", "%17"), ("+1", "XOR5", "%17"), ("*3", "+1", "/2"),
                  ("+1", "<<1", "%17"), ("-3", "*3", "XOR5"), ("inc%5", "+1", "*3"), ("+1", "%17", "+h")]
         if tier == "thorough":
             three = [c for c in itertools.product(names, repeat=3)
-                     if c[0] in ("+1", "+h", "inc%5", "-3")]
+                     if c[0] in ("+1", "+h", "inc%5", "-3", "+hk")]
         chains += three
         out = []
         for ch in chains:
@@ -82,11 +87,14 @@ class C04(core.Check):
     def run_case(self, case):
         stmts = gen.thaw(case["stmts"])
         fexpr = gen.thaw(case["fexpr"])
-        vals = [{"d": v} for v in (0, 1, 3, -2)] if case["inputs"] else [{}]
+        import itertools as it
+        vals = [dict(zip(case["inputs"], v)) for v in it.product((0, 1, 3, -2), repeat=len(case["inputs"]))] if case["inputs"] else [{}]
 
         def f(x, val):
             env = lang.Env(val)
             lang.run([gen.INPUT_DECL[i] for i in case["inputs"]], env)
+            if "hm" in val:
+                env.vars["hk"] = lang.Sig(CELL, val["hm"] * 2)
             env.mem_read = lambda m: lang.Sig(CELL, x)
             return lang.val(lang.ev(fexpr, env))
 
